@@ -25,7 +25,7 @@ import (
 func main() { guard("main", realMain) }
 
 func realMain() {
-	mode := flag.String("mode", "record", "record | universe | replay | realloop")
+	mode := flag.String("mode", "record", "record | universe | replay | realloop | stash")
 	out := flag.String("out", ".", "output directory")
 	runs := flag.Int("runs", 8, "number of runs")
 	seed := flag.Int64("seed", 1, "seed")
@@ -60,6 +60,20 @@ func realMain() {
 		}
 		must(trace.WriteNDJSON(filepath.Join(*out, "trace.ndjson"), all))
 		writeJSON(filepath.Join(*out, "runs.json"), stats)
+		b, _ := json.Marshal(map[string]any{"runs": len(stats), "events": len(all)})
+		fmt.Println(string(b))
+	case "stash":
+		var all []trace.Ev
+		var stats []stashStat
+		for i := 0; i < *runs; i++ {
+			evs, st := runStash(*seed*1000003+int64(i), *out)
+			stats = append(stats, st)
+			if st.Discarded == "" {
+				all = append(all, evs...)
+			}
+		}
+		must(trace.WriteNDJSON(filepath.Join(*out, "stash-trace.ndjson"), all))
+		writeJSON(filepath.Join(*out, "stash-runs.json"), stats)
 		b, _ := json.Marshal(map[string]any{"runs": len(stats), "events": len(all)})
 		fmt.Println(string(b))
 	case "realloop":
